@@ -105,32 +105,16 @@ Theorem C11_gate_is_so3_close : forall m0 m1 m2 m3 m4 m5 m6 m7 m8,
 Proof. intros. exact (gate_cases m0 m1 m2 m3 m4 m5 m6 m7 m8). Qed.
 Print Assumptions C11_gate_is_so3_close.
 
-(* acceptance: every matrix within 1e-12 (entrywise) of some proper rotation R is accepted *)
-Theorem C11_so3_gate_accepts : forall r0 r1 r2 r3 r4 r5 r6 r7 r8 m0 m1 m2 m3 m4 m5 m6 m7 m8,
-  SO3 [r0;r1;r2;r3;r4;r5;r6;r7;r8] ->
-  Rabs (m0 - r0) <= 1/1000000000000 -> Rabs (m1 - r1) <= 1/1000000000000 -> Rabs (m2 - r2) <= 1/1000000000000 ->
-  Rabs (m3 - r3) <= 1/1000000000000 -> Rabs (m4 - r4) <= 1/1000000000000 -> Rabs (m5 - r5) <= 1/1000000000000 ->
-  Rabs (m6 - r6) <= 1/1000000000000 -> Rabs (m7 - r7) <= 1/1000000000000 -> Rabs (m8 - r8) <= 1/1000000000000 ->
-  C11_DCM_matrix_R m0 m1 m2 m3 m4 m5 m6 m7 m8 = Val [m0;m1;m2;m3;m4;m5;m6;m7;m8].
-Proof.
-  intros. apply (gate_accepts m0 m1 m2 m3 m4 m5 m6 m7 m8).
-  apply (so3_gate_accepts_close r0 r1 r2 r3 r4 r5 r6 r7 r8); assumption.
-Qed.
-Print Assumptions C11_so3_gate_accepts.
-
-(* rejection of the named families at distance >= 1e-4: reflections (det = -1), scalings (1+eps) R,
-   shears R (I + eps E12) *)
+(* rejection of the named families at distance >= 1e-4: reflections (det = -1), scalings (1+eps) R
+   (shears R (I + eps E12): C11_tol.v) *)
 Theorem C11_so3_gate_rejects : forall r0 r1 r2 r3 r4 r5 r6 r7 r8 eps,
   let R := [r0;r1;r2;r3;r4;r5;r6;r7;r8] in
   (det3 R = -1 -> gate9 R = Raise ValueError) /\
-  (SO3 R -> 1/10000 <= Rabs eps -> gate9 (mscale (1 + eps) R) = Raise ValueError) /\
-  (SO3 R -> 1/10000 <= Rabs eps -> gate9 (mmul3 R (shear12 eps)) = Raise ValueError).
+  (SO3 R -> 1/10000 <= Rabs eps -> gate9 (mscale (1 + eps) R) = Raise ValueError).
 Proof.
-  intros. split; [|split].
+  intros. split.
   - intros H. apply (gate_rejects r0 r1 r2 r3 r4 r5 r6 r7 r8), reflection_not_close, H.
   - intros HS He. pose proof (scaling_not_close eps _ _ _ _ _ _ _ _ _ HS He) as N.
-    exact (gate_rejects _ _ _ _ _ _ _ _ _ N).
-  - intros HS He. pose proof (shear_not_close eps _ _ _ _ _ _ _ _ _ HS He) as N.
     exact (gate_rejects _ _ _ _ _ _ _ _ _ N).
 Qed.
 Print Assumptions C11_so3_gate_rejects.
